@@ -85,11 +85,35 @@ def real_decoder(s, compat=False, attribute=False):
 
 
 def real_decode_graph(s, compat=False):
-    """the MolecularGraph the real decoder builds for `s` (its own functions, called as `decoder()` calls them);
-    None if the internals are not callable this way (refactored) or the string is rejected"""
+    """the MolecularGraph the real decoder builds for `s`: captured from inside a real `selfies.decoder(s)` call by
+    spying on the module-level name `mol_to_smiles` the decoder hands its graph to (no change to the library); if the
+    decoder no longer does that (refactored), its own functions are called the way `decoder()` calls them; None if
+    neither works or the string is rejected"""
+    import importlib
+    import warnings
     try:
-        import importlib
         D = importlib.import_module("selfies.decoder")      # (`selfies.decoder` the attribute is the function)
+    except Exception:
+        return None
+    orig = getattr(D, "mol_to_smiles", None)
+    captured = []
+    if orig is not None:
+        def spy(mol, *a, **k):
+            captured.append(mol)
+            return orig(mol, *a, **k)
+        D.mol_to_smiles = spy
+        try:
+            with warnings.catch_warnings():
+                warnings.simplefilter("ignore")
+                D.decoder(s, compatible=compat)
+        except Exception:
+            pass
+        finally:
+            D.mol_to_smiles = orig
+        if captured:
+            return captured[0]
+        # rejected before the writer was reached, or the writer is called some other way: fall through
+    try:
         MolecularGraph = importlib.import_module("selfies.mol_graph").MolecularGraph
         mol = MolecularGraph(attributable=False)
         rings = []
